@@ -12,16 +12,16 @@ except OSError:
 
 # id -> (technique, level text, level note, design ref)
 CHECKS = {
- "C06": ("differential runtime monitor: engine unify() vs independent reference unifier over a bounded-exhaustive term-pair universe x engine-produced prior sets, plus seeded random deep pairs",
+ "C06": ("differential runtime monitor: engine unify() vs independent reference unifier over a bounded-exhaustive term-pair universe x engine-produced prior sets, plus seeded random deep pairs; in situ on every head unification and `=` goal of real searches via the verif-hooks events",
          "Every ordered pair of a closed term universe is unified by the real engine under every prior substitution set (themselves produced by checked engine unifications) and compared with a reference mgu: success/failure, earlier bindings kept, resolved values equal up to renaming, both sides equal when resolved, no binding cycle. Exhaustive inside the stated universe, sampled beyond; says nothing about terms outside it.",
          "trusts the reference unifier in monitor/src/runify.rs; occurs-check and order-dependent wildcard cases are skipped and counted", "DESIGN.md 5/C06"),
- "C07": ("metamorphic runtime monitor: A.unify(B) vs B.unify(A) on the C06 pair space, as written and after recreate_variables (shared / separate VarMap)",
+ "C07": ("metamorphic runtime monitor: A.unify(B) vs B.unify(A) on the C06 pair space, as written and after recreate_variables (shared / separate VarMap); in situ by replaying every head unification of real searches with the sides swapped",
          "Both directions are executed on the real engine and must agree on success and on every variable's resolved value up to renaming; exhaustive over unordered pairs of the universe, sampled beyond.",
          "no reference needed for the verdict; the reference is used only to skip occurs-check cases", "DESIGN.md 5/C07"),
- "C08": ("invariant monitor: bounded cycle search over the engine's substitution set after every step of all variable-pair unification sequences up to a length bound, then replace_variables/Display must return",
+ "C08": ("invariant monitor: bounded cycle search over the engine's substitution set after every step of all variable-pair unification sequences up to a length bound, then replace_variables/Display must return; in situ after every successful unification of real searches",
          "All sequences of variable-to-variable unifications up to the bound are executed; after each successful step the binding graph is searched for a cycle and re-aliasing must not add a binding. Random mixed sequences extend reach. A hang or stack overflow of the worker is isolated and reported.",
          "monitor's own walk is bounded so it cannot hang; cases needing an occurs check are skipped", "DESIGN.md 5/C08"),
- "C09": ("invariant + metamorphic runtime monitor: `$_` against every universe term (bindings unchanged), nested `$_` pairs vs reference, and insertion of `$V = $_` steps into unification sequences",
+ "C09": ("invariant + metamorphic runtime monitor: `$_` against every universe term (bindings unchanged), nested `$_` pairs vs reference, and insertion of `$V = $_` steps into unification sequences; in situ on every unification event with a `$_` side",
          "Top-level `$_` must succeed and leave the substitution set entry-wise unchanged under every prior; nested occurrences are compared with the reference; inserting a `$_` unification at any point of a sequence must not change later successes or values.",
          "trusts the reference unifier for nested wildcard positions", "DESIGN.md 5/C09"),
  "C01": ("history + reference-model runtime monitor: answer sequence of next_solution()/solve_all() vs an independent depth-first SLD interpreter, over a complete enumeration of small program shapes plus seeded random stratified programs",
@@ -39,6 +39,9 @@ CHECKS = {
  "C05": ("invariant monitor over call histories: after the first None / `No more.`, further requests on the same query must return None / `No more.` and write zero bytes",
          "Every query of the C01-C04 corpora (not, cut, print, nested and/or) is driven to exhaustion and then asked again 3 (quick) / 5 (thorough) times through next_solution() and twice through solve(); stdout is captured around every request.",
          "needs no reference model; queries that reach the answer cap before exhaustion are skipped and counted", "DESIGN.md 5/C05"),
+ "C10": ("invariant runtime monitor: skeleton equality, id consistency and freshness of every renaming, at the API (recreate_variables on terms / goals / rules, get_rule, make_query, parse_query) and in situ on every clause renaming of real searches via the verif-hooks Rename event",
+         "Every enumerated term and list shape, thousands of generated rules and every clause of generated programs is renamed; with ids erased the result must be identical to the input down to every list node's count, tail flag and the empty-list terminator; same name <=> same id, no id 0, ids inside the counter window, separate renamings and the query pairwise disjoint. In situ, the ids of each freshly renamed clause must not occur in the goal being resolved, nor be bound in, nor occur inside a value of, the substitution set of that point of the search.",
+         "ids re-used after a failed head unification occur nowhere and are not flagged", "DESIGN.md 5/C10"),
  "C11": ("metamorphic runtime monitor: the engine against itself on alpha-renamed programs (random names, the query's names, identical names in every clause, names that are prefixes of each other)",
          "Each program of the corpus is executed as generated and under 4 (quick) / 8 (thorough) consistent renamings of its clause variables; answers (canonicalised) and captured output must be identical.",
          "no reference model involved in the verdict", "DESIGN.md 5/C11"),
